@@ -14,7 +14,7 @@ func init() {
 		Explanation: "Decided: an in-use page id is never dropped without being handed to the freelist (every `pgid = 0`, `SetRootPage(0)` and every removal of a node from the node cache is tied to a Free of that page); a tree is never mutated from inside the callback that enumerates it (the documented ForEach contract, checked for every ForEach/ForEachBucket call site in the module); " +
 			"the meta's freelist pointer is redefined on every path whenever the old freelist page is freed, and the old page is freed before the new one is allocated; Bucket.free releases pages AND materialised nodes, and DeleteBucket frees a bucket after its nested buckets and before removing its key. " +
 			"Page capacity (R8): the page count requested for a node / the free list is at least ceil(size/pageSize) of the very object then written into the allocated page, buffers are count*pageSize bytes, node.size()/sizeLessThan() count header + element header + key + value, the serialiser places data after the element array and advances by key+value, Commit grows the file to the high-water mark and grow truncates to at least the request (all tabulated with the T6 evaluator). " +
-			"NOT decided: key order within and across pages for arbitrary histories, that split/rebalance keep nodes non-empty, agreement of Stats and Check with the accounting (all value-level). Round 3: rebalance re-parents materialised children of transferred inodes to the receiving node.",
+			"NOT decided: key order within and across pages for arbitrary histories, that split/rebalance keep nodes non-empty, agreement of Stats and Check with the accounting (all value-level). Round 3: rebalance re-parents materialised children of transferred inodes to the receiving node. Round 4: the free list rebuilt by scanning comes from the integrity check's reachability walk (re-evaluated).",
 		Run: func(c *Ctx) {
 			c13R1(c, "C07.R13") // "both free and in use": the rebuilt free list is the complement of the integrity check's reachability walk
 			c07R1(c, "C07.R1")
